@@ -1,6 +1,6 @@
 (* C09: a small concrete codec satisfying the laws the theorems assume (so that they are not vacuous),
    and concrete runs of the executable toy instance used as witnesses. *)
-From AV Require Import Lib.Base Generated.DecodeGen Model.Decode Proofs.DecodeBound Proofs.DecodeProgress.
+From AV Require Import Lib.Base Generated.DecodeGen Model.Decode Proofs.DecodeBound.
 From Coq Require Import ZifyBool ZifyN.
 Ltac Zify.zify_post_hook ::= Z.to_euclidean_division_equations.
 Open Scope N_scope.
@@ -48,56 +48,9 @@ Proof.
   exact (bounded_memory bytes ic_new ic_step ic_avail ic_eof ic_flush (fun m => m) ic_cap id_mono f c t len enc evs y os Hf Hl He Hr).
 Qed.
 
-Lemma take_nil (m : N) (l : bytes) : m <> 0 -> take m l = [] -> l = [].
-Proof.
-  unfold take. destruct (lenN l <=? m); [auto|]. intros Hm. destruct l; [auto|].
-  destruct (N.to_nat m) eqn:E; [lia|]. cbn. discriminate.
-Qed.
-
-Lemma ic_avail_law : forall h x m h', ic_step h x m = Some (Some (h', [])) -> ic_avail h' = false.
-Proof.
-  intros h x m h'. unfold ic_step, ic_avail. destruct (m =? 0) eqn:E.
-  - intros [= <- _]. reflexivity.
-  - intros [= <- Ht]. apply take_nil in Ht; [|lia]. rewrite Ht. unfold drop.
-    replace (lenN (@nil N) <=? m) with true by (symmetry; apply N.leb_le; cbn; lia). reflexivity.
-Qed.
-
-Lemma progress_nonchunked_idcap : forall f c t len enc evs (y : ic_sys) os,
-  1 <= c_limit c -> t <> PChunked ->
-  ic_run f (ic_init c t len enc) evs = (y, os) ->
-  buf (re (core y)) = [] -> connected (pr (core y)) = true ->
-  has_more (pr (core y)) = false /\ rpaused (pr (core y)) = false /\ tpaused (pr (core y)) = false.
-Proof. exact (progress_nonchunked bytes ic_new ic_step ic_avail ic_eof ic_flush ic_avail_law). Qed.
-
 (* ---- witnesses on the executable toy instance ------------------------------------------------- *)
 Definition toy_run (fuel : nat) (y : toy_sys) (evs : list event) : toy_sys * list obs :=
   run toy_zh toy_hnew toy_hstep toy_havail toy_heof toy_hflush fuel y evs.
-
-(* "3\r\nabc\r\n" then "3\r\ndef\r\n0\r\n\r\n" on an uncompressed chunked body with read_bufsize = 1 *)
-Definition w_seg1 : bytes := [51; 13; 10; 97; 98; 99; 13; 10].
-Definition w_seg2 : bytes := [51; 13; 10; 100; 101; 102; 13; 10; 48; 13; 10; 13; 10].
-Definition w_stale_events : list event := [EvData w_seg1; EvOp OpReadAny; EvOp OpReadAny; EvData w_seg2].
-Definition w_stale_init : toy_sys := toy_init 1 true 8190 8190 125 true PChunked 0 0.
-
-(* The consumer waits on an empty buffer, the connection is open, the transport is reading, every
-   byte of the body has been handed to the protocol, and the parser holds unprocessed input. *)
-Definition stalled {H} (y : sys H) : Prop :=
-  pend y <> None /\ buf (re (core y)) = [] /\ reof (re (core y)) = false /\ rexn (re (core y)) = None /\
-  connected (pr (core y)) = true /\ tpaused (pr (core y)) = false /\ has_more (pr (core y)) = true.
-
-Lemma not_stalled_nonchunked :
-  forall (H : Type) (hnew : N -> H) (hstep : H -> bytes -> N -> option (option (H * bytes))) (havail heof : H -> bool) (hflush : H -> option bytes),
-    (forall h x m h', hstep h x m = Some (Some (h', [])) -> havail h' = false) ->
-    forall f c t len enc evs (y : sys H) os,
-      1 <= c_limit c -> t <> PChunked ->
-      run H hnew hstep havail heof hflush f (init H hnew c t len enc) evs = (y, os) -> ~ stalled y.
-Proof.
-  intros H hnew hstep havail heof hflush Hlaw f c t len enc evs y os Hl Ht Hr (_ & Hb & _ & _ & Hc & _ & Hm).
-  destruct (progress_nonchunked H hnew hstep havail heof hflush Hlaw f c t len enc evs y os Hl Ht Hr Hb Hc) as (X & _). congruence.
-Qed.
-
-Lemma stale_pause_witness : stalled (fst (toy_run 100 w_stale_init w_stale_events)).
-Proof. vm_compute. repeat split; discriminate. Qed.
 
 (* a toy gzip "bomb": one member, 3 runs of 200 bytes, limit 4: the reader never holds more than
    high + max_length = 8 + 4 bytes although 600 bytes are decoded *)
@@ -108,22 +61,3 @@ Lemma bomb_witness :
   rsize (re (core y)) = 12 /\ tpaused (pr (core y)) = true /\ has_more (pr (core y)) = true.
 Proof. vm_compute. repeat split. Qed.
 
-(* toy gzip member 1f 02 41 00 <wrong checksum ff> in two HTTP chunks; the consumer has read "AA" and waits;
-   the second segment ends chunk 1 without new output (data-less wake-up) and then fails the checksum *)
-Definition w_rewait_seg1 : bytes := [52; 13; 10; 31; 2; 65].
-Definition w_rewait_seg2 : bytes := [0; 13; 10; 49; 13; 10; 255; 13; 10; 48; 13; 10; 13; 10].
-Definition w_rewait_events : list event := [EvData w_rewait_seg1; EvOp OpReadAny; EvOp OpReadAny; EvData w_rewait_seg2].
-Definition hung_with_error {H} (y : sys H) : Prop :=
-  pend y <> None /\ rexn (re (core y)) <> None /\ wt (re (core y)) = WWaiting.
-Lemma rewait_witness : hung_with_error (fst (toy_run 100 (toy_init 64 true 8190 8190 125 true PChunked 5 1) w_rewait_events)).
-Proof. vm_compute. repeat split; discriminate. Qed.
-
-(* the 9-byte toy gzip bomb (600 bytes decoded) with Content-Length framing, read_bufsize 1, on a transport
-   without flow control: the peer closes while the parser holds pending input; connection_lost pauses again,
-   drops the parser, and the consumer gets 4 bytes and then RuntimeError("Connection closed.") *)
-Definition w_lost_events : list event := [EvData w_bomb; EvClose; EvOp OpReadAny; EvOp OpReadAny].
-Definition lost_at_close (r : toy_sys * list obs) : Prop :=
-  last (snd r) ONone = ORes (RErr EConnClosed) /\ lenN (delivered (re (core (fst r)))) = 4 /\
-  reof (re (core (fst r))) = false /\ has_more (pr (core (fst r))) = true.
-Lemma lost_witness : lost_at_close (toy_run 1000 (toy_init 1 true 8190 8190 125 false PLength 9 1) w_lost_events).
-Proof. vm_compute. repeat split. Qed.
